@@ -335,6 +335,28 @@ func runEngHistory(t *testing.T, self string, base string, seed int64, index int
 						if o3.Kind == "build" && len(o3.Ran) != 0 {
 							r.oracle("C02 comment/whitespace edits of build files and same-content rewrites of sources re-executed %v", o3.Ran)
 						}
+						// C02 across a dry run: a source is edited, a dry run reports the work, the edit is reverted -- the tree
+						// is again what was built, so the next build executes nothing
+						if o3.Kind == "build" && o3.OK && len(o3.Ran) == 0 {
+							reverted := false
+							for _, id := range ids {
+								for _, sid := range r.p.Targets[id].Srcs {
+									sp := r.p.Sources[sid]
+									if lit, ok := r.litOf[sp.Path]; ok && lit != 0 && sp.Dir == nil && !reverted {
+										r.editSource(sid)
+										r.build(label, "dry", nil, "", "dry run after an edit that is then reverted")
+										r.revertSource(sid, lit)
+										reverted = true
+									}
+								}
+							}
+							if reverted {
+								o4 := r.build(label, "build", nil, "", "rebuild after the reverted edit")
+								if o4.Kind == "build" && len(o4.Ran) != 0 {
+									r.oracle("C02 an edit that was reverted (with a dry run in between) re-executed %v", o4.Ran)
+								}
+							}
+						}
 					}
 				}
 			}
